@@ -24,6 +24,8 @@ def replay(rec, expected):
     try:
         execs = {a: {} for a in APP}
         prev_rows = []
+        deployed = {}           # app -> deployed version
+        seen = set()            # apps a completed run has dealt with
         for i, op in enumerate(rec['hist']):
             exp = expected.get(key_of(rec['hist'][:i + 1]))
             st = {'index': i, 'op': op, 'expected': exp}
@@ -34,9 +36,15 @@ def replay(rec, expected):
                     installed.sort(key=lambda x: ['shop', 'blog'].index(x))
                     project.set_installed(installed)
                 hists[a].deploy(project, op['v'])
+                deployed[a] = op['v']
                 continue
-            if op['op'] in ('run', 'runonly', 'runfail'):
-                if op['op'] == 'runfail':
+            if op['op'] in ('run', 'runonly', 'runfail', 'runhint'):
+                st['fresh'] = {a: v for a, v in deployed.items() if a not in seen}
+                if op['op'] == 'runhint':
+                    res = project.run({'action': 'command', 'name': 'evolve',
+                                       'options': {'hint': True, 'execute': True, 'interactive': False,
+                                                   'verbosity': 0}})
+                elif op['op'] == 'runfail':
                     res = project.run({'action': 'command', 'name': 'evolve',
                                        'options': {'execute': True, 'interactive': False, 'verbosity': 0},
                                        'fault': {'at': 1, 'scope': 'batch'}})
@@ -46,15 +54,16 @@ def replay(rec, expected):
                                        'options': {'execute': True, 'interactive': False, 'verbosity': 0}})
                 else:
                     # limited to one app: only the API can do that (the command refuses app labels
-                    # together with --execute); like the command, evolve only if required
+                    # together with --execute); like the command, evolve only if required and only
+                    # if the simulation resolves every change
                     res = project.run({'action': 'evolve_api', 'apps': [APP[a] for a in op['apps']],
-                                       'only_if_required': True})
+                                       'only_if_required': True, 'only_if_resolved': True})
                 sigs = [e['ev'] for e in res['events']]
                 executed = {a: [] for a in APP}
                 for e in res['events']:
                     if e['ev'] == 'applying_evolution':
                         a = [k for k, v in APP.items() if v == e.get('app')][0]
-                        executed[a] += [int(l[1:]) for l in e.get('labels') or []]
+                        executed[a] += [int(l[1:]) for l in e.get('labels') or [] if l[1:].isdigit()]
                 ours = any(e['ev'] in ('creating_models', 'applying_evolution') and e.get('app') in APP.values()
                            for e in res['events'])
                 now = sorted(tuple(r[:2]) for r in res['post']['default']['book']['evolutions']
@@ -75,6 +84,8 @@ def replay(rec, expected):
                             a = [k for k, v in APP.items() if v == e.get('app')][0]
                             executed[a] += [int(l[1:]) for l in e.get('labels') or []]
                 st['executed'] = {a: sorted(v) for a, v in executed.items()}
+                if st['outcome'] in ('executed', 'nothing'):
+                    seen |= set(deployed) if op['op'] != 'runonly' else set(op['apps'])
                 for a, ls in executed.items():
                     for l in ls:
                         execs[a][l] = execs[a].get(l, 0) + 1
